@@ -390,3 +390,75 @@ fn fut_drop() {
     assert!(!(st == FrameState::RxBusy) || after == FrameState::RxBusy, "C06-U5 abandon while RX is inside the buffer must not free the slot");
 }
 
+
+// ---------------------------------------------------------------------------------------------------------------
+// Atomic-operation log (ghost state): which operations poll performs, and in which order (C01.3: no lost wake-up)
+// ---------------------------------------------------------------------------------------------------------------
+static mut OPLOG: [u8; 8] = [0; 8];
+static mut OPN: usize = 0;
+
+fn oplog(op: u8) {
+    unsafe {
+        if OPN < 8 {
+            OPLOG[OPN] = op;
+        }
+        OPN += 1;
+    }
+}
+
+/// stand-in for AtomicWaker::register that records the call (the waker itself is irrelevant to the order obligation)
+fn logged_register(_w: &AtomicWaker, _waker: &core::task::Waker) {
+    oplog(1);
+}
+
+/// stand-in for AtomicFrameState::compare_exchange: records the call and performs the same update on the real field
+fn logged_cas(
+    s: &AtomicFrameState,
+    current: FrameState,
+    new: FrameState,
+    _success: Ordering,
+    _failure: Ordering,
+) -> Result<FrameState, FrameState> {
+    oplog(2);
+    let cur = s.load(Ordering::SeqCst);
+    if cur == current {
+        s.store(new, Ordering::SeqCst);
+        Ok(cur)
+    } else {
+        Err(cur)
+    }
+}
+
+//@h name=fut_poll_waker_order props=C01 fn=src/pdu_loop/frame_element/receiving_frame.rs::ReceiveFrameFut::poll obligation="poll registers the task's waker BEFORE it tests RxDone (the compare-exchange RxDone->RxProcessing), for every slot state: a response stored between the test and a later registration would find no waker and the request would never complete (lost wake-up)"
+#[cfg_attr(kani, kani::proof)]
+#[cfg_attr(kani, kani::stub(embassy_time_driver::now, vnow))]
+#[cfg_attr(kani, kani::stub(embassy_time_driver::schedule_wake, vschedule))]
+#[cfg_attr(kani, kani::stub(crate::timer_factory::timer, vtimer))]
+#[cfg_attr(kani, kani::stub(atomic_waker::AtomicWaker::register, logged_register))]
+#[cfg_attr(kani, kani::stub(crate::pdu_loop::frame_element::AtomicFrameState::compare_exchange, logged_cas))]
+fn fut_poll_waker_order() {
+    let storage = PduStorage::<1, DATA>::new();
+    let (_tx, _rx, pdu_loop) = storage.try_split().unwrap();
+    let st = any_state();
+    let e = any_slot(st);
+    let idx = AtomicU8::new(0);
+    let mut fut = ReceiveFrameFut {
+        frame: Some(FrameBox::new(NonNull::from(&e).cast(), &idx, DATA)),
+        pdu_loop: &pdu_loop,
+        timeout_timer: embassy_time::Timer::at(embassy_time::Instant::from_ticks(DEADLINE)),
+        timeout: pdu_timeout(),
+        retries_left: vk::any(),
+    };
+    unsafe {
+        VNOW = 0;
+        OPN = 0;
+    }
+    let waker = core::task::Waker::noop();
+    let mut cx = core::task::Context::from_waker(&waker);
+    let r = core::pin::Pin::new(&mut fut).poll(&mut cx);
+    let (n, first, second) = unsafe { (OPN, OPLOG[0], OPLOG[1]) };
+    assert!(n >= 2, "poll registers a waker and tests the slot state");
+    assert!(first == 1 && second == 2, "the waker is registered before the RxDone test");
+    core::mem::forget(r);
+    core::mem::forget(fut);
+}
